@@ -242,8 +242,38 @@ Definition eout_eqb (a b : eout) : bool :=
   let '(t1, k1, (x1, r1)) := a in let '(t2, k2, (x2, r2)) := b in
   (t1 =? t2) && (k1 =? k2) && dna_eqb x1 x2 && list_eqb col_eqb r1 r2.
 
-Definition case := (call * outcome eout)%type.
+(* the same encoding when the user function itself edits the sequence before the model sees
+   it (apply_product / apply_pairwise with func = marginalize: result t = 1 is the model on
+   the example with the motif written at p); still an example-wise function of (x, rows) *)
+Definition hEd (ed : option (nat * dna)) (t k : nat) (e : einput) : eout :=
+  (t, k, (match ed with
+          | Some (p, mo) => if t =? 1 then splice p (length mo) (fst e) mo else fst e
+          | None => fst e
+          end, snd e)).
+
+(* how the result is packaged: 0 = a tensor, 1 = a list of tensors, 2 = a list of lists.
+   before/after wrappers: 10 * (tag of before) + (tag of after) *)
+Definition expected_tag (c : call) : nat :=
+  let two nk := if is_tuple nk then 11 else 0 in
+  match c with
+  | CMarg nk _ _ _ _ | CAbl nk _ _ _ _ | CSpace nk _ _ _ _ _
+  | CMargAnn nk _ _ _ _ _ | CAblAnn nk _ _ _ _ _ => two nk
+  | CProd sh _ _ _ | CPair sh _ _ _ =>
+      match sh with OT => 0 | OL _ => 1 | OLL _ _ => 2 end
+  end.
+
+(* one correspondence case: the call, the decoded outcome, the edit performed by the user
+   function (None for plain encodings), the observed packaging of the result, and whether every
+   tensor / array / list the caller passed in was bit-identical afterwards *)
+Definition case := (call * outcome eout * option (nat * dna) * nat * bool)%type.
 
 Definition check_case (c : case) : nat :=
-  let '(cl, o) := c in
-  verdict (outcome_eqb eout eout_eqb o (model eout hE cl)) (spec_ok eout hE eout_eqb cl o).
+  let '(cl, o, ed, tag, unchanged) := c in
+  match o with
+  | Ok _ =>
+      verdict (outcome_eqb eout eout_eqb o (model eout (hEd ed) cl))
+              ((tag =? expected_tag cl) && unchanged && spec_ok eout (hEd ed) eout_eqb cl o)
+  | Err =>
+      verdict (outcome_eqb eout eout_eqb o (model eout (hEd ed) cl))
+              (unchanged && spec_ok eout (hEd ed) eout_eqb cl o)
+  end.
